@@ -14,6 +14,7 @@ mod c05;
 mod c06;
 mod c07;
 mod c08;
+mod c10;
 mod c12;
 mod c12_world;
 mod c13;
@@ -80,6 +81,7 @@ fn main() {
         "C06" => c06::run(tier),
         "C07" => c07::run(tier),
         "C08" => c08::run(tier),
+        "C10" => c10::run(tier),
         "C12" => c12::run(tier),
         "C13" => c13::run(tier),
         "C14" => c14::run(tier),
@@ -112,6 +114,7 @@ fn main() {
         "C06" => c06::replay(&sub, &v["witness"]),
         "C07" => c07::replay(&sub, &v["witness"]),
         "C08" => c08::replay(&sub, &v["witness"]),
+        "C10" => c10::replay(&sub, &v["witness"]),
         "C12" => c12::replay(&sub, &v["witness"]),
         "C13" => c13::replay(&sub, &v["witness"]),
         "C14" => c14::replay(&sub, &v["witness"]),
